@@ -80,6 +80,9 @@ Step(e) ==
          /\ c04' = Set(c04, e.how # "closed" /\ e.ch \in DOMAIN regs /\ regs[e.ch].sid = e.sid /\ regs[e.ch].n >= 1,
                        "a waiting caller was notified twice (second result sent to its channel)")
          /\ UNCHANGED <<bad, open, outstanding, c03>>
+    [] e.ev = "Panic" ->
+         /\ c04' = Set(c04, TRUE, "an operation panicked instead of returning an error")
+         /\ UNCHANGED <<bad, open, outstanding, regs, c03>>
     [] e.ev = "End" ->
          /\ c04' = Set(c04, e.hung # 0 \/ ~e.waitret \/ ~e.closeret \/ e.goroutines # 0 \/ open # {},
                        IF e.hung # 0 \/ open # {} THEN "an operation did not return after the connection was lost"
